@@ -118,7 +118,7 @@ def plan(tier, seed):
             items.append({"kind": "sweep", "len": 3, "lo": lo, "hi": lo + 4, "exhaustive": "validator vs strict decoder: all byte strings of length <=3 + structured 4-byte set"})
         for lo in range(0xF0, 0xF5):
             items.append({"kind": "sweep", "len": 4, "lo": lo, "hi": lo + 1, "exhaustive": "validator vs strict decoder: all byte strings of length <=3 + structured 4-byte set"})
-    n = 16000 if tier == "quick" else 300000
+    n = 16000 if tier == "quick" else 1200000
     per = 500 if tier == "quick" else 4000
     for s in range(0, n, per):
         items.append({"kind": "rand", "start": s, "count": per})
@@ -362,7 +362,7 @@ def gen(rng):
 
 
 def plan(tier, seed):
-    return _plan0(tier, seed) + [{"kind": "reused", "count": 120 if tier == "quick" else 3000}]
+    return _plan0(tier, seed) + [{"kind": "reused", "count": 120 if tier == "quick" else 12000}]
 
 
 def expand(item, seed):
